@@ -701,10 +701,12 @@ def roadnet_part(ck, tier):
 
 CACHE_CFG = """SPECIFICATION Spec
 CONSTANT MaxLen = %(maxlen)d
-CONSTANT NMaps = 2
+CONSTANT NMaps = %(nmaps)d
 CONSTANT NOpts = %(nopts)d
 CONSTANT Kinds = {%(kinds)s}
 CONSTANT AsImplemented = FALSE
+CONSTANT Pairs = %(pairs)s
+CONSTANT Eff = %(eff)s
 CONSTRAINT Bounded
 INVARIANT TypeOK
 INVARIANT FreshNetwork
@@ -723,6 +725,44 @@ CACHE_OPTS = {1: {}, 2: {"tolerance": 0.2}, 3: {"elide_short_roads": True, "tole
 VERSIONS = {1: None, 2: 1_000_035}  # 1 = the code's own version, 2 = a bumped one
 
 
+def tla_seq(x):
+    if isinstance(x, (list, tuple)):
+        return "<<" + ", ".join(tla_seq(y) for y in x) + ">>"
+    return str(x)
+
+
+def option_universe():
+    """Every option Network.fromFile forwards to the parser (read from the signature of
+    Network.fromOpenDrive, so a new option is picked up automatically), each one: absent, explicitly
+    equal to its default, falsy (0 / 0.0 / False), None, and one other value.  One option at a time
+    on top of the defaults; option set 1 is {} (all defaults)."""
+    import inspect
+
+    from scenic.domains.driving.roads import Network
+
+    sig = inspect.signature(Network.fromOpenDrive)
+    out = [{}]
+    for name, par in sig.parameters.items():
+        if name in ("cls", "self", "path") or par.default is inspect.Parameter.empty:
+            continue
+        d = par.default
+        vals = [d]
+        if isinstance(d, bool):
+            vals += [False, True, None]
+        elif isinstance(d, int):
+            vals += [0, None, d // 2 if d > 1 else d + 7]
+        elif isinstance(d, float):
+            vals += [0, 0.0, None, d * 4 if d else 0.2]
+        else:
+            vals += [None]
+        seen = []
+        for v in vals:
+            if not any(v is w or (type(v) is type(w) and v == w) for w in seen):
+                seen.append(v)
+                out.append({name: v})
+    return out
+
+
 def corrupt_bytes(data, kind):
     if kind == "truncate":
         return data[:40]
@@ -733,48 +773,167 @@ def corrupt_bytes(data, kind):
     raise MachineryError("unknown corruption " + kind)
 
 
+def _uid(e):
+    return None if e is None else e.uid
+
+
+def observe(net, probes):
+    """The option-dependent observable behaviour of a loaded network (part of its identity in the cache
+    replay, and printed in violations): tolerance, road / element counts (elide_short_roads), holes in the
+    intersection polygons (fill_intersections), total area (fill_gaps, ref_points) and what elementAt /
+    roadAt answer at fixed probe points just outside road edges and inside intersection holes."""
+    from scenic.core.vectors import Vector
+
+    holes = 0
+    for it in net.intersections:
+        for g in it.polygons.geoms:
+            holes += len(g.interiors)
+    at = []
+    for x, y in probes:
+        v = Vector(x, y)
+        try:
+            at.append([_uid(net.elementAt(v)), _uid(net.roadAt(v))])
+        except Exception as e:
+            at.append(["raised", type(e).__name__])
+    import roadnet_export as X
+
+    return {"tolerance": float(net.tolerance), "roads": len(net.allRoads), "elements": len(net.elements),
+            "intersection_holes": holes,
+            "area_cm2": X._cm(sum(e.polygons.area for e in net.elements.values())),
+            "drivable_cm2": X._cm(net.drivableRegion.polygons.area), "at_probes": at}
+
+
+def build_tables(item):
+    """Worker: the reference for one map: fresh parses (Network.fromOpenDrive, outside fromFile) of every
+    map content under every option set; their signatures, equivalence classes and the probe points.
+    Option sets the parser refuses are reported in `refused`."""
+    src, d, optlist, nmaps = item
+    _quiet()
+    import numpy as np
+
+    import roadnet_export as X
+    from scenic.domains.driving.roads import Network
+
+    os.makedirs(d, exist_ok=True)
+    path = os.path.join(d, "map.xodr")
+    text = open(src, encoding="utf-8", errors="replace").read()
+    maps = {1: text}
+    if nmaps > 1:
+        edited = mut_scale_widths(text)
+        if edited is None or edited == text:
+            raise MachineryError("cannot make a second version of the map")
+        maps[2] = edited
+    nets, refused = {}, {}
+    for d_, t in maps.items():
+        with open(path, "w", encoding="utf-8") as f:
+            f.write(t)
+        for o_, opts in enumerate(optlist, start=1):
+            if o_ in refused:
+                continue
+            try:
+                nets[(d_, o_)] = Network.fromOpenDrive(path, **opts)
+            except Exception as e:
+                refused[o_] = f"{type(e).__name__}: {e}"[:120]
+    keep = [o for o in range(1, len(optlist) + 1) if o not in refused]
+    # probe points: just outside road edges of the default network, and inside whatever part of the
+    # intersections some option set fills and another leaves open
+    rng = np.random.default_rng(12345)
+    probes = []
+    base = nets[(1, 1)]
+    for r in list(base.roads)[:2]:
+        for off in (0.03, 0.1, 0.3):
+            probes += X._ring_points(r.polygons, 2, rng, off)
+    import shapely
+
+    ub = shapely.union_all([i.polygons for i in base.intersections]) if base.intersections else None
+    if ub is not None:
+        for o_ in keep:
+            n = nets[(1, o_)]
+            if not n.intersections:
+                continue
+            uo = shapely.union_all([i.polygons for i in n.intersections])
+            for a, b in ((ub, uo), (uo, ub)):
+                diff = a.difference(b.buffer(0.1))
+                parts = list(diff.geoms) if hasattr(diff, "geoms") else [diff]
+                for g in sorted((g for g in parts if not g.is_empty and g.area > 0.05), key=lambda g: -g.area)[:3]:
+                    rp = g.representative_point()
+                    probes.append((rp.x, rp.y))
+    probes = [(round(x, 4), round(y, 4)) for x, y in probes][:24]
+
+    def sig(net, points):
+        e = X.export_network(net, "cache", seed=0, budget=36, points=points, seed_key="cache")
+        e = strip_for_compare(e)
+        e["observables"] = observe(net, probes)
+        return digest(e)
+
+    cheap, full, obs = {}, {}, {}
+    for (d_, o_), net in nets.items():
+        if o_ in refused:
+            continue
+        cheap[f"{d_},{o_}"] = sig(net, False)
+        full[f"{d_},{o_}"] = sig(net, True)
+        obs[f"{d_},{o_}"] = observe(net, probes)
+    # classes per map content: option sets whose fresh parses are indistinguishable
+    eff = {}
+    for d_ in maps:
+        seen = []
+        for o_ in keep:
+            s = full[f"{d_},{o_}"]
+            if s not in seen:
+                seen.append(s)
+            eff[f"{d_},{o_}"] = seen.index(s) + 1
+    shutil.rmtree(d, ignore_errors=True)
+    return {"src": src, "maps": maps, "opts": [optlist[o - 1] for o in keep], "refused": {optname(optlist[o - 1]): r for o, r in refused.items()},
+            "probes": probes, "cheap": {k: v for k, v in cheap.items()}, "full": full, "obs": obs, "eff": eff, "keep": keep}
+
+
+def renumber_tables(t):
+    """Option ids of the tables were positions in the universe; renumber to 1..K over the accepted ones."""
+    m = {o: i + 1 for i, o in enumerate(t["keep"])}
+
+    def rk(dct):
+        out = {}
+        for k, v in dct.items():
+            d_, o_ = k.split(",")
+            out[(int(d_), m[int(o_)])] = v
+        return out
+
+    return dict(t, cheap=rk(t["cheap"]), full=rk(t["full"]), obs=rk(t["obs"]), eff=rk(t["eff"]))
+
+
 class CacheWorld:
     """The real world of MapCache.tla: a scratch directory with map.xodr (+ map.snet)."""
 
-    def __init__(self, src, d, nopts=2):
+    def __init__(self, tables, d):
         _quiet()
-        self.nopts = nopts
         self._memo = {}
         import roadnet_export as X
-        from scenic.core.serialization import deterministicHash
         from scenic.domains.driving.roads import Network
 
         self.X, self.N = X, Network
+        self.t = tables
+        self.opts = {i + 1: o for i, o in enumerate(tables["opts"])}
+        self.nopts = len(self.opts)
         os.makedirs(d, exist_ok=True)
         self.dir = d
         self.path = os.path.join(d, "map.xodr")
         self.cache = os.path.join(d, "map" + Network.pickledExt)
-        text = open(src, encoding="utf-8").read()
-        edited = mut_scale_widths(text)
-        if edited is None or edited == text:
-            raise MachineryError("cannot make a second version of the map")
-        self.maps = {1: text.encode(), 2: edited.encode()}
+        self.maps = {k: v.encode() for k, v in tables["maps"].items()}
         self.mapdig = {k: hashlib.blake2b(v).digest() for k, v in self.maps.items()}
-        self.optdig = {k: deterministicHash(v, digest_size=8) for k, v in CACHE_OPTS.items()}
         self.real_version = Network._currentFormatVersion()
         self.orig_version = Network.__dict__["_currentFormatVersion"]
-        # reference: fresh parses of every (map content, options), outside fromFile
-        self.ref = {}
-        self.ref_full = {}
-        for d_, data in self.maps.items():
-            with open(self.path, "wb") as f:
-                f.write(data)
-            for o_, opts in CACHE_OPTS.items():
-                net = Network.fromOpenDrive(self.path, **opts)
-                self.ref[(d_, o_)] = self.sig(net, False)
-                self.ref_full[(d_, o_)] = self.sig(net, True)
-        if len(set(self.ref.values())) != len(self.ref):
-            raise MachineryError("reference networks are not pairwise distinguishable")
         self.reset()
 
     def sig(self, net, points):
         e = self.X.export_network(net, "cache", seed=0, budget=36, points=points, seed_key="cache")
-        return digest(strip_for_compare(e))
+        e = strip_for_compare(e)
+        e["observables"] = observe(net, self.t["probes"])
+        return digest(e)
+
+    def classes_of(self, s, d, points):
+        """the classes (of map content d) of the reference networks with signature s"""
+        table = self.t["full"] if points else self.t["cheap"]
+        return sorted({self.t["eff"][k] for k, x in table.items() if x == s and k[0] == d})
 
     # ---- state
     def reset(self):
@@ -819,25 +978,26 @@ class CacheWorld:
         return dict(self._memo[key])
 
     def _cache_state(self, data):
+        """{k, d, v, cls}: format version and map content named by the header, class of the network the body
+        holds.  (Which option set the 8-byte options digest stands for is not observed: how options are hashed
+        is the code's business; whether the cache is *used* for the right options is observed by the loads.)"""
         import struct
 
         v = struct.unpack("<I", data[:4])[0]
         vv = 1 if v == self.real_version else 2 if v == VERSIONS[2] else -1
         d = [k for k, x in self.mapdig.items() if x == data[4:68]]
-        o = [k for k, x in self.optdig.items() if x == data[68:76]]
-        if vv < 0 or not d or not o:
+        if vv < 0 or not d:
             return {"k": "corrupt"}
-        # does the body load, and which network is it?
         saved = self.N.__dict__["_currentFormatVersion"]
         try:
             self.N._currentFormatVersion = classmethod(lambda cls: v)
             net = self.N.fromPickle(self.cache)
-            c = [k for k, x in self.ref.items() if x == self.sig(net, False)]
+            c = self.classes_of(self.sig(net, False), d[0], False)
         except Exception:
             return {"k": "corrupt"}
         finally:
             self.N._currentFormatVersion = saved
-        return {"k": "valid", "d": d[0], "o": o[0], "v": vv, "c": list(c[0]) if c else [-1, -1]}
+        return {"k": "valid", "d": d[0], "v": vv, "cls": c}
 
     # ---- actions
     def apply(self, act):
@@ -849,6 +1009,10 @@ class CacheWorld:
                 f.write(self.maps[self.mapD])
         elif a == "ChangeOptions":
             self.opt = self.opt % self.nopts + 1
+        elif a == "SetOptions":
+            self.opt = act["o"]
+        elif a == "Idle":
+            pass
         elif a == "BumpVersion":
             self.ver = 3 - self.ver
             self._set_version()
@@ -860,10 +1024,10 @@ class CacheWorld:
                 f.write(corrupt_bytes(data, act["kind"]))
         elif a == "Load":
             before = open(self.cache, "rb").read() if os.path.exists(self.cache) else None
-            obs = {"raised": None}
+            obs = {"raised": None, "options": optname(self.opts[self.opt])}
             with _Observer() as ob:
                 try:
-                    net = self.N.fromFile(self.path, useCache=act["use"], writeCache=act["write"], **CACHE_OPTS[self.opt])
+                    net = self.N.fromFile(self.path, useCache=act["use"], writeCache=act["write"], **self.opts[self.opt])
                 except Exception as e:
                     net = None
                     obs["raised"] = f"{type(e).__name__}: {e}"[:200]
@@ -871,38 +1035,46 @@ class CacheWorld:
             hit = ob.calls[-1:] == ["pickle:ok"] and "parse" not in ob.calls
             obs["outcome"] = "hit" if hit else "parse" if "parse" in ob.calls else "none"
             if net is not None:
-                s = self.sig(net, hit)
-                table = self.ref_full if hit else self.ref
-                who = [k for k, x in table.items() if x == s]
-                obs["net"] = list(who[0]) if who else [-1, -1]
+                obs["cls"] = self.classes_of(self.sig(net, hit), self.mapD, hit)
+                obs["observables"] = observe(net, self.t["probes"])
             after = open(self.cache, "rb").read() if os.path.exists(self.cache) else None
             obs["cache_rewritten"] = after != before
             return obs
         return None
 
 
-def _expected_cache(c):
+def _expected_cache(world, c):
     if c["k"] == "valid":
-        return {"k": "valid", "d": c["d"], "o": c["o"], "v": c["v"], "c": list(c["c"])}
+        return {"k": "valid", "d": c["d"], "v": c["v"], "cls": [world.t["eff"][(c["c"][0], c["c"][1])]]}
     return {"k": c["k"]}
+
+
+def act_text(a, opts=None):
+    if a["a"] == "Load":
+        return f"Load(use={a['use']},write={a['write']})"
+    if a["a"] == "SetOptions":
+        return "SetOptions(" + (optname(opts[a["o"] - 1]) if opts else str(a["o"])) + ")"
+    return a["a"] + (":" + a["kind"] if a["kind"] else "")
 
 
 def replay_subtree(item):
     """Worker: depth-first replay of all TLC behaviours below one first action."""
-    src, d, nopts, records = item
+    tables, d, records = item
     _limit_memory(4)
-    world = CacheWorld(src, d, nopts)
+    world = CacheWorld(tables, d)
+    eff = tables["eff"]
     # trie of behaviours
     trie = {}
     for r in records:
         node = trie
         for act in r["hist"]:
-            key = (act["a"], act["use"], act["write"], act["kind"])
+            key = (act["a"], act["use"], act["write"], act["kind"], act["o"])
             node = node.setdefault(key, {"act": act, "kids": {}, "rec": None})
             last = node
             node = node["kids"]
         last["rec"] = r
-    problems, stats = [], {"edges": 0, "loads": 0, "hits": 0, "parses": 0, "leaves": 0, "why": {}}
+    problems = []
+    stats = {"edges": 0, "loads": 0, "hits": 0, "parses": 0, "leaves": 0, "why": {}, "dontcare_equivalent_options_hit": 0}
 
     def walk(kids, state, hist):
         for key in sorted(kids, key=str):
@@ -913,25 +1085,40 @@ def replay_subtree(item):
             rec = node["rec"]
             h = hist + [node["act"]]
             if rec is not None:
-                exp_cache = _expected_cache(rec["cache"])
-                got_cache = world.cache_state()
-                bad = []
                 if (world.mapD, world.opt, world.ver) != (rec["mapD"], rec["opt"], rec["ver"]):
                     raise MachineryError("replay lost track of the world state")
-                if got_cache != exp_cache:
-                    bad.append(f"cache file is {got_cache}, the specification says {exp_cache}")
+                bad = []
+                dontcare = False
                 if node["act"]["a"] == "Load":
                     stats["loads"] += 1
                     L = rec["last"]
                     stats["why"][L["why"]] = stats["why"].get(L["why"], 0) + 1
+                    want = eff[(L["net"][0], L["net"][1])]
                     if obs["raised"]:
                         bad.append(f"Load raised {obs['raised']} (a miss must fall back to parsing)")
                     else:
                         stats["hits" if obs["outcome"] == "hit" else "parses"] += 1
-                        if obs["outcome"] != L["outcome"]:
-                            bad.append(f"observed {obs['outcome']} (calls {obs['calls']}), the specification says {L['outcome']} ({L['why']})")
-                        if obs["net"] != list(L["net"]):
-                            bad.append(f"the loaded network is that of (map, options) = {obs['net']}, expected {list(L['net'])}")
+                        right = obs["cls"] == [want]
+                        if (obs["outcome"] == "hit" and L["outcome"] == "parse" and L["why"] == "options-digest" and right
+                                and eff[(rec["cache"]["c"][0], rec["cache"]["c"][1])] == want if rec["cache"]["k"] == "valid" and not L["write"]
+                                else obs["outcome"] == "hit" and L["outcome"] == "parse" and L["why"] == "options-digest" and right):
+                            # the cached network was built under another spelling of an equivalent option
+                            # valuation and IS the network asked for: hit or parse, both fine (don't-care)
+                            dontcare = True
+                        else:
+                            if obs["outcome"] != L["outcome"]:
+                                bad.append(f"observed {obs['outcome']} (calls {obs['calls']}), the specification says {L['outcome']} ({L['why']})")
+                            if not right:
+                                bad.append(
+                                    f"the network returned for options [{obs['options']}] is not the one a fresh parse with the same options gives: "
+                                    f"observed {json.dumps(obs['observables'])[:400]}, fresh parse {json.dumps(world.t['obs'][(L['cur'][0], L['cur'][1])])[:400]}")
+                if dontcare:
+                    stats["dontcare_equivalent_options_hit"] += 1
+                    continue  # the cache was legitimately not rewritten: the model's next states do not apply
+                exp_cache = _expected_cache(world, rec["cache"])
+                got_cache = world.cache_state()
+                if got_cache != exp_cache:
+                    bad.append(f"cache file is {got_cache}, the specification says {exp_cache}")
                 if bad:
                     problems.append({"hist": h, "problems": bad, "observation": obs, "expected": {"last": rec["last"], "cache": rec["cache"]}})
                     continue  # below a divergence the model no longer describes the world: report it once
